@@ -305,6 +305,8 @@ def kani_unit(name, cfg, repo, build, tier, prop=None):
             t1 = time.time()
             cmd = ['cargo', 'kani'] + cfg.get('flags', []) + h.get('flags', []) + ['--harness', h['name']]
             if tier == 'thorough' and h.get('thorough_flags'): cmd += h['thorough_flags']
+            # CBMC can exhaust memory on a harness that an edit has made harder: cap the address space (24 GB) and the time
+            cmd = ['bash', '-c', 'ulimit -v 24000000; exec "$@"', 'kani'] + cmd
             try:
                 rc, out, err = sh(cmd, cwd=scratch, env=env, timeout=h.get('timeout', 1800))
             except subprocess.TimeoutExpired:
